@@ -25,6 +25,12 @@ pub const BIG_CASES: &[&str] = &[
     "boxed_generate_u8x16_4MiB",
     "default_boxed_u8x16_4MiB",
     "boxed_collect_u8x16_4MiB",
+    "boxed_from_iter_loose_hint_u32_4MiB",
+    "try_boxed_from_iter_absent_hint_u32_4MiB",
+    "boxed_map_u32_4MiB",
+    "boxed_zip_u32_4MiB",
+    "try_from_vec_u32_4MiB",
+    "boxed_into_iter_roundtrip_u32_4MiB",
 ];
 /// not a check: demonstrates that the small stack really cannot hold the array
 pub const BIG_PROBE: &str = "probe_stack_default_u32_4MiB";
@@ -74,6 +80,56 @@ fn big_boxed_collect_u8x16() -> bool {
     b.iter().enumerate().all(|(i, x)| *x == [(i >> 3) as u8; 16])
 }
 #[inline(never)]
+fn big_boxed_from_iter_loose_hint() -> bool {
+    // filter: size_hint (0, Some(n)) — truthful but loose
+    let b: Box<GenericArray<u32, BigN>> = (0..1u32 << 20).filter(|x| std::hint::black_box(*x) < u32::MAX).collect();
+    b.iter().enumerate().all(|(i, &x)| x == i as u32)
+}
+#[inline(never)]
+fn big_try_boxed_from_iter_absent_hint() -> bool {
+    // from_fn: size_hint (0, None)
+    let mut k = 0u32;
+    let src = std::iter::from_fn(move || {
+        if k < 1 << 20 {
+            k += 1;
+            Some(k - 1)
+        } else {
+            None
+        }
+    });
+    let b = GenericArray::<u32, BigN>::try_boxed_from_iter(src).unwrap();
+    b.iter().enumerate().all(|(i, &x)| x == i as u32)
+}
+#[inline(never)]
+fn big_boxed_map() -> bool {
+    use generic_array::functional::FunctionalSequence;
+    let b = GenericArray::<u32, BigN>::default_boxed();
+    let c: Box<GenericArray<u32, BigN>> = b.map(|x| x + 5);
+    c.iter().all(|&x| x == 5)
+}
+#[inline(never)]
+fn big_boxed_zip() -> bool {
+    use generic_array::functional::FunctionalSequence;
+    let a = Box::<GenericArray<u32, BigN>>::generate(|i| i as u32);
+    let b = GenericArray::<u32, BigN>::default_boxed();
+    let c: Box<GenericArray<u32, BigN>> = a.zip(b, |x, y| x + y + 1);
+    c.iter().enumerate().all(|(i, &x)| x == i as u32 + 1)
+}
+#[inline(never)]
+fn big_try_from_vec() -> bool {
+    let v: Vec<u32> = (0..1u32 << 20).collect();
+    let b = GenericArray::<u32, BigN>::try_from_vec(v).unwrap();
+    b.iter().enumerate().all(|(i, &x)| x == i as u32)
+}
+#[inline(never)]
+fn big_boxed_into_iter_roundtrip() -> bool {
+    let b = Box::<GenericArray<u32, BigN>>::generate(|i| i as u32);
+    let v = b.into_vec();
+    let b2 = GenericArray::<u32, BigN>::try_from_boxed_slice(v.into_boxed_slice()).unwrap();
+    let c: Box<GenericArray<u32, BigN>> = b2.into_iter().rev().collect();
+    c.iter().enumerate().all(|(i, &x)| x == (1u32 << 20) - 1 - i as u32)
+}
+#[inline(never)]
 fn big_probe_stack_default_u32() -> bool {
     let a = std::hint::black_box(GenericArray::<u32, BigN>::default());
     a.iter().all(|&x| x == 0)
@@ -90,6 +146,12 @@ pub fn bigstack_child(case: &str) -> i32 {
         "boxed_generate_u8x16_4MiB" => big_boxed_generate_u8x16,
         "default_boxed_u8x16_4MiB" => big_default_boxed_u8x16,
         "boxed_collect_u8x16_4MiB" => big_boxed_collect_u8x16,
+        "boxed_from_iter_loose_hint_u32_4MiB" => big_boxed_from_iter_loose_hint,
+        "try_boxed_from_iter_absent_hint_u32_4MiB" => big_try_boxed_from_iter_absent_hint,
+        "boxed_map_u32_4MiB" => big_boxed_map,
+        "boxed_zip_u32_4MiB" => big_boxed_zip,
+        "try_from_vec_u32_4MiB" => big_try_from_vec,
+        "boxed_into_iter_roundtrip_u32_4MiB" => big_boxed_into_iter_roundtrip,
         "probe_stack_default_u32_4MiB" => big_probe_stack_default_u32,
         _ => return 2,
     };
